@@ -165,7 +165,7 @@ type accessRow struct {
 	Atomic   bool     `json:"atomic"`
 	Prepub   bool     `json:"prepub"`
 	Variant  string   `json:"variant"` // struct embedding the accessed object ("" = unknown)
-	Held     [][2]int `json:"held"` // must-held (class, mode)
+	Held     [][2]int `json:"held"`    // must-held (class, mode)
 	HeldStr  string   `json:"held_names"`
 	Sites    []string `json:"sites"`
 	Witness  string   `json:"witness"`
@@ -1119,8 +1119,9 @@ func (a *analyzer) addrTaken(fn *ssa.Function, fa *ssa.FieldAddr, st *lstate, c 
 // ---- exemptions / known findings (read only) ----
 
 type exemptions struct {
-	Edges []struct{ From, To, Why string } `json:"edges"`
-	Pairs []struct {
+	Comment string                           `json:"_comment"`
+	Edges   []struct{ From, To, Why string } `json:"edges"`
+	Pairs   []struct {
 		Field, A, B, Why string
 	} `json:"pairs"`
 }
@@ -1347,7 +1348,7 @@ func (a *analyzer) emit() {
 	sort.Strings(knownKeys)
 	for _, k := range knownKeys {
 		parts := strings.Split(k, ":")
-		if len(parts) == 4 && parts[0] == "race" {
+		if len(parts) == 4 && parts[0] == "race" && parts[1] != "heap" {
 			addPair(parts[1], parts[2], parts[3], "known finding")
 		}
 	}
